@@ -48,4 +48,21 @@ PROPS = {
             "power set operands are cut to 5 members",
         ],
     },
+    "C02": {
+        "level": "exploration",
+        "technique": "property-based testing (rapid): one model value built by two independent construction paths (or a near-miss), equality/membership/dict-key/repr/operator contexts compared with the model",
+        "level_text": "Generated-input search: a model value D is rendered through two independently drawn construction paths "
+                      "(sugar literal, spelled-out tuples, relation literal, |, &, &~, where, =>, with, without, ++, offset, +>, "
+                      "attribute removal/projection, let) or paired with a near-miss D' != D; a = b, b = a, a != b, {a, b} count, {a: 1}(b), "
+                      "//str.repr equality and one operator context applied to both must agree with model equality in both directions. "
+                      "Absence beyond generated sizes is not established.",
+        "level_note": "Trusted: harness/model equality (canonical text of finite sets/tuples/numbers), the path renderer (paths are equal to D by "
+                      "construction in the model), rapid. Open known findings (superimposed index, sparse bytes) excused by model-side tags only.",
+        "tests": [{"name": "TestC02", "quick": 700, "thorough": 10000}],
+        "rule": "pairs (path1(D), path2(D)) or (path1(D), path2(D')) with D' a one-step mutation of D. Non-trivial: D is not a bare number and at least "
+                "two different construction forms were used, one of them computed. Distinct = distinct program text.",
+        "assumptions": COMMON_ASSUMPTIONS + [
+            "for unequal pairs only the equality facts (=, !=, count of {a,b}, dict lookup, repr inequality) are asserted",
+        ],
+    },
 }
